@@ -313,11 +313,9 @@ enum MOut { Ok(PJ), Err, Panic(&'static str) }
 
 thread_local! { static PANIC_FILE: std::cell::RefCell<String> = const { std::cell::RefCell::new(String::new()) }; }
 
-/// runs the real code under `catch_unwind`. A panic is attributed to a site of merge.rs only if its location is in
-/// dukebox/src/merge.rs (own panic hook for the duration of the call); there both panic sites are
-/// `pretty_assertions::assert_eq!` (message "assertion failed: `(left == right)`" + a Debug diff of the two values):
-/// the one in the InnerClasses closure prints `InnerClass { .. }` values, `merge_from_client` prints a Version, an
-/// access-flag struct or a bool. Anything else is reported as site `other`, which the model never predicts
+/// runs the real code under `catch_unwind` (own panic hook for the duration of the call, to learn the location).
+/// Since 9bfd462 merge.rs has no reachable panic; one that happens anyway is reported with the site `merge.rs` (its
+/// location is in dukebox/src/merge.rs) or `other`, which the model never predicts
 fn run_merge(client: &[EntD], server: &[EntD]) -> R<MOut> {
 	let c = jar_build(client)?;
 	let s = jar_build(server)?;
@@ -332,10 +330,9 @@ fn run_merge(client: &[EntD], server: &[EntD]) -> R<MOut> {
 		Ok(Ok(j)) => MOut::Ok(j),
 		Ok(Err(_)) => MOut::Err,
 		Err(payload) => {
-			let msg = payload.downcast_ref::<String>().cloned()
-				.or_else(|| payload.downcast_ref::<&str>().map(|s| s.to_string())).unwrap_or_default();
+			drop(payload);
 			let in_merge_rs = PANIC_FILE.with(|p| p.borrow().ends_with("dukebox/src/merge.rs"));
-			MOut::Panic(if !in_merge_rs || !msg.contains("assertion failed") { "other" } else if msg.contains("InnerClass") { "inner_classes" } else { "merge_from_client" })
+			MOut::Panic(if in_merge_rs { "merge.rs" } else { "other" })
 		}
 	})
 }
@@ -415,10 +412,6 @@ fn keys_ok(c: &ClsD, s: &ClsD) -> bool {
 fn merge_ok(c: &ClsD, s: &ClsD) -> bool {
 	c.version == s.version && c.access == s.access && c.name == s.name && c.sup == s.sup && c.dep == s.dep && c.syn == s.syn
 		&& keys_ok(c, s)
-		&& shared_flags_ok(&c.fields, &s.fields) && shared_flags_ok(&c.methods, &s.methods) && shared_inners_ok(c, s)
-}
-fn no_panic_dom(c: &ClsD, s: &ClsD) -> bool {
-	c.version == s.version && c.access == s.access && c.dep == s.dep && c.syn == s.syn
 		&& shared_flags_ok(&c.fields, &s.fields) && shared_flags_ok(&c.methods, &s.methods) && shared_inners_ok(c, s)
 }
 fn union_domain(c: &ClsD, s: &ClsD) -> bool { merge_ok(c, s) && c != s && nodup(&c.itfs) && nodup(&s.itfs) }
@@ -572,7 +565,6 @@ fn exec(op: &str, args: &[Sexp]) -> Ans {
 				"oracle-marks" => marks_domain(&c, &s),
 				"oracle-class-union" => union_domain(&c, &s),
 				"oracle-class-ok-iff" => keys_ok(&c, &s),
-				"oracle-no-panic" => no_panic_dom(&c, &s),
 				_ => true,
 			};
 			if !dom { return Ans::out_of_domain(); }
@@ -601,10 +593,11 @@ fn exec(op: &str, args: &[Sexp]) -> Ans {
 				},
 			}
 		}
-		("merge-jars" | "oracle-entries", [c, s]) => {
+		("merge-jars" | "oracle-entries" | "oracle-jar-no-panic", [c, s]) => {
 			let c = tr!(jar_from(c)); let s = tr!(jar_from(s));
 			if op == "oracle-entries" && !jar_domain(&c, &s) { return Ans::out_of_domain(); }
 			let merged = tr!(run_merge(&c, &s));
+			if op == "oracle-jar-no-panic" { return if matches!(merged, MOut::Panic(_)) { Ans::fail("panic") } else { Ans::pass() }; }
 			if op == "merge-jars" {
 				return match merged {
 					MOut::Ok(j) => match jar_read(&j) { Ok(r) => Ans::Ok(jar_to(&r)), Err(_) => Ans::err() },
@@ -755,7 +748,7 @@ fn gen_class_pair(r: &mut Rng, out: &mut Out) -> (ClsD, ClsD) {
 	(c, s)
 }
 
-/// push the pair into one of the failure regions of `class_merger_merge` (clean error, panic) or keep it mergeable
+/// push the pair into one of the refusal regions of `class_merger_merge` (all clean errors since 9bfd462) or keep it mergeable
 fn class_case(r: &mut Rng, out: &mut Out, c: &mut ClsD, s: &mut ClsD) {
 	let flip_shared = |c: &ClsD, s: &mut ClsD, methods: bool, r: &mut Rng| -> bool {
 		let (cm, sm) = if methods { (&c.methods, &mut s.methods) } else { (&c.fields, &mut s.fields) };
@@ -775,26 +768,26 @@ fn class_case(r: &mut Rng, out: &mut Out, c: &mut ClsD, s: &mut ClsD) {
 			if let Some(m) = s.methods.first_mut() { m.anns.push(AnnD::Env(Side::C)); }
 			out.stats.hit("class-case:pre-marked");
 		}
-		5 => { s.version = if c.version == 52 { 61 } else { 52 }; out.stats.hit("class-case:version-differs(panic)"); }
-		6 => { s.access = c.access ^ *r.pick(&[0x10, 0x01, 0x1000]); out.stats.hit("class-case:access-differs(panic)"); }
-		7 => { if r.chance(1, 2) { s.dep = !c.dep; } else { s.syn = !c.syn; } out.stats.hit("class-case:class-dep-syn-differs(panic)"); }
-		8 => { let m = r.chance(1, 2); out.stats.hit(if flip_shared(c, s, m, r) { "class-case:shared-member-flag-differs(panic)" } else { "class-case:mergeable" }); }
+		5 => { s.version = if c.version == 52 { 61 } else { 52 }; out.stats.hit("class-case:version-differs(err, was panic)"); }
+		6 => { s.access = c.access ^ *r.pick(&[0x10, 0x01, 0x1000]); out.stats.hit("class-case:access-differs(err, was panic)"); }
+		7 => { if r.chance(1, 2) { s.dep = !c.dep; } else { s.syn = !c.syn; } out.stats.hit("class-case:class-dep-syn-differs(err, was panic)"); }
+		8 => { let m = r.chance(1, 2); out.stats.hit(if flip_shared(c, s, m, r) { "class-case:shared-member-flag-differs(err, was panic)" } else { "class-case:mergeable" }); }
 		9 => {
 			let shared: Vec<usize> = (0..s.inners.len()).filter(|i| c.inners.iter().any(|x| x.name == s.inners[*i].name)).collect();
 			if shared.is_empty() { out.stats.hit("class-case:mergeable"); } else {
 				let i = *r.pick(&shared); s.inners[i].flags ^= 0x8;
-				out.stats.hit("class-case:shared-inner-differs(panic)");
+				out.stats.hit("class-case:shared-inner-differs(err, was panic)");
 			}
 		}
-		10 => { s.name = "net/minecraft/Other".into(); s.access = c.access ^ 0x10; out.stats.hit("class-case:name+access-differ(panic first)"); }
-		11 => { s.sup = Some("net/minecraft/Base".into()); let m = r.chance(1, 2); flip_shared(c, s, m, r); out.stats.hit("class-case:super+member-flag-differ(err first)"); }
+		10 => { s.name = "net/minecraft/Other".into(); s.access = c.access ^ 0x10; out.stats.hit("class-case:name+access-differ(err)"); }
+		11 => { s.sup = Some("net/minecraft/Base".into()); let m = r.chance(1, 2); flip_shared(c, s, m, r); out.stats.hit("class-case:super+member-flag-differ(err)"); }
 		12 => {
 			// a repeated key on one side (IndexMap::collect keeps the last); outside keysOk
 			if let Some(m) = c.fields.first().cloned() { c.fields.push(MemD { payload: m.payload + 5, ..m }); }
 			if let Some(m) = s.methods.last().cloned() { s.methods.insert(0, MemD { access: 0x0401, ..m }); }
 			out.stats.hit("class-case:duplicate-keys");
 		}
-		13 => { let m = r.chance(1, 2); flip_shared(c, s, m, r); if let Some(i) = s.inners.first_mut() { i.flags ^= 1; } out.stats.hit("class-case:member-flag+inner(panic order)"); }
+		13 => { let m = r.chance(1, 2); flip_shared(c, s, m, r); if let Some(i) = s.inners.first_mut() { i.flags ^= 1; } out.stats.hit("class-case:member-flag+inner(err)"); }
 		_ => out.stats.hit("class-case:mergeable"),
 	}
 }
@@ -861,6 +854,7 @@ fn jar_ops(out: &mut Out, c: &[EntD], s: &[EntD]) {
 	let args = [jar_to(c), jar_to(s)];
 	out.op("merge-jars", &args);
 	out.op("oracle-entries", &args);
+	out.op("oracle-jar-no-panic", &args);
 }
 
 fn gen(r: &mut Rng, tier: Tier, out: &mut Out) {
@@ -874,7 +868,7 @@ fn gen(r: &mut Rng, tier: Tier, out: &mut Out) {
 	for (a, b) in [(vec![0], vec![1, 0]), (vec![0, 1], vec![0, 2, 1]), (vec![1, 2], vec![0, 1, 3, 2, 4]), (vec![0, 1], vec![1, 0])] {
 		for mode in ["itf", "fld", "mth", "inn"] { mpo_ops(out, mode, &a, &b, true); }
 	}
-	// the panic witnesses of Thm/C13.lean (`merge_class_*_panic_witness`, `merge_jar_panic_witness`) on the real code
+	// the regression inputs of Thm/C13.lean (`merge_class_*_regression_fixed`, `merge_jar_regression_fixed`): panicked before 9bfd462, `err e` now
 	{
 		let w = ClsD { name: "net/minecraft/A".into(), ..base_class() };
 		let f = |dep: bool| MemD { dep, ..mem("f".into(), "I") };
@@ -961,7 +955,7 @@ fn gen(r: &mut Rng, tier: Tier, out: &mut Out) {
 		(vec![oth("lib/a.class", b"1")], vec![oth("lib/a.class", b"2")]),            // both sides: not skipped, client wins
 		(vec![cls("net/minecraft/T.class", &bc)], vec![cls("net/minecraft/T.class", &ClsD { name: "net/minecraft/U".into(), ..bc.clone() })]),
 		(vec![cls("x.class", &bc), cls("x.class", &ClsD { payload: 2, ..bc.clone() })], vec![]), // repeated name: IndexMap keeps the last
-		// an error in a later entry after a kept one; a panic after an error-free prefix; error before panic in entry order
+		// an error in a later entry after a kept one; a refused class after an error-free prefix; two failing entries
 		(vec![oth("a", b"x"), dir("b")], vec![oth("b", b"x")]),
 		(vec![oth("a", b"x"), cls("p.class", &bc)], vec![cls("p.class", &ClsD { access: 0x31, ..bc.clone() })]),
 		(vec![dir("b"), cls("p.class", &bc)], vec![cls("p.class", &ClsD { access: 0x31, ..bc.clone() }), oth("b", b"x")]),
